@@ -320,7 +320,7 @@ def run(ctx):
     obs = [[l for l in h if l != 'state'] for h in hs]
     agreed = vlib.correspond(ctx, 'messageq', [exe], obs, spec=spec, valid=valid, label='messageq (observable results)',
                              norm=bb_norm if ctx.blackbox else None)
-    if not ctx.violations and not ctx.broken:
+    if not ctx.violations and not ctx.broken and not ctx.blackbox:
         agreed = vlib.correspond(ctx, 'messageq', [exe], hs, spec=spec, valid=valid, label='messageq (with structure contents)')
     depths, sizes, ops, nulls, wraps, b31 = {}, {}, {}, 0, 0, 0
     for h in hs:
